@@ -272,6 +272,10 @@ def block_distributed_range(start, stop):
         
     else:
 
+        # the block is recorded also here; the functions which collect data
+        # read it (the list and array versions of this function do the same)
+        config.range = [start, stop]
+        
         return range(start, stop)
 
 
